@@ -440,9 +440,6 @@ fn becomes_default(s: &mut Sess, out: &mut Out, st: &mut Stats, rng: &mut Rng, k
             out.oracle_fail(PROP, "new", &format!("chosen-not-shown rep={} shown={} {}", rep, hx(&shown), what));
         }
         commit(s, out, st, &format!("{} rep={}", what, rep));
-        if s.file_backed {
-            std::thread::sleep(std::time::Duration::from_millis(15));
-        }
         // default of the bare syllables
         let m = s.merged(key);
         let fx = *m.get(x).unwrap_or(&0);
@@ -752,8 +749,42 @@ fn scenario(rng: &mut Rng, out: &mut Out, st: &mut Stats, file_backed: bool, lon
     }
     if file_backed {
         // close and reopen: everything the user dictionary reported before closing is still there
-        std::thread::sleep(std::time::Duration::from_millis(60));
         let last = user_view(&mut s.ed);
+        // Let the background writer catch up before closing: closing while a snapshot is in flight loses the
+        // changes made since it started (F12, durability = C10); that schedule is not C08's subject.  Without a
+        // hook the writer cannot be observed, so drive reopen()/flush() (what every key event with a pending
+        // change does) until an independent reader of the file sees the whole map.
+        let file_view = |path: &std::path::Path| -> UserView {
+            let mut m = UserView::new();
+            if let Ok(d) = chewing::dictionary::Trie::open(path) {
+                for (k, t, f, tm) in dict_entries(&d) {
+                    let e = m.entry((k, t)).or_insert((f, tm));
+                    if (f, tm) > *e {
+                        *e = (f, tm);
+                    }
+                }
+            }
+            m
+        };
+        let t0 = std::time::Instant::now();
+        let mut settled = false;
+        while t0.elapsed() < std::time::Duration::from_secs(10) {
+            if let Some(d) = s.ed.user_dict().as_dict_mut() {
+                let _ = d.reopen();
+                let _ = d.flush();
+            }
+            std::thread::sleep(std::time::Duration::from_millis(3));
+            if file_view(&path) == last {
+                settled = true;
+                break;
+            }
+        }
+        if !settled {
+            out.oracle_fail(PROP, "new", &format!("never-persisted-while-open file={} map={}", enc_user(&file_view(&path)), enc_user(&last)));
+        }
+        if user_view(&mut s.ed) != last {
+            out.oracle_fail(PROP, "new", &format!("reopen-flush-changed-the-map before={} after={}", enc_user(&last), enc_user(&user_view(&mut s.ed))));
+        }
         drop(s);
         let d = TrieBuf::open(&path).unwrap();
         let mut again = UserView::new();
@@ -865,7 +896,7 @@ fn main() {
     };
     est_grid(&mut rng, &mut out, &mut st, thorough);
 
-    let (n_mem, n_long, n_file) = if thorough { (3000, 600, 60) } else { (150, 40, 4) };
+    let (n_mem, n_long, n_file) = if thorough { (8000, 2000, 150) } else { (400, 100, 12) };
     for i in 0..(n_mem + n_long + n_file) {
         let file_backed = i >= n_mem + n_long;
         let long_loops = i >= n_mem && !file_backed;
